@@ -29,8 +29,34 @@ impl Prop for C01 {
     }
 
     fn gen(&self, rng: &mut Rng, n: usize, tier: Tier, out: &mut Vec<String>) {
-        for _ in 0..n {
+        let names: Vec<&'static str> = dispatch::SCHEMAS.iter().map(|(n, _)| *n).collect();
+        for case in 0..n {
             out.push("reset".to_string());
+            // generated structures: every one of them in turn (bytes of a valid value), and
+            // now and then with an unknown enum discriminant or a mutation
+            {
+                let name = names[case % names.len()];
+                let mut g = Gen::new(rng);
+                g.lens = vec![0, 1, 2, 3, 5];
+                let (bytes, ok) = g.struct_bytes(name, case % 5 == 4);
+                if bytes.len() <= 6000 {
+                    if ok {
+                        out.push(format!("srt {} x{}", name, hex(&bytes)));
+                    } else {
+                        out.push(format!("sdec {} {} x{}", name, generous().show(), hex(&bytes)));
+                    }
+                    if case % 3 == 0 && !bytes.is_empty() {
+                        let mut m = bytes.clone();
+                        let i = rng.below(m.len() as u64) as usize;
+                        match rng.below(3) {
+                            0 => m[i] ^= 1 << rng.below(8),
+                            1 => m.truncate(i),
+                            _ => m[i] = rng.next() as u8,
+                        }
+                        out.push(format!("sdec {} {} x{}", name, Lim::default().show(), hex(&m)));
+                    }
+                }
+            }
             let k = 1 + rng.below(3);
             for _ in 0..k {
                 let depth = match rng.below(10) {
@@ -160,6 +186,33 @@ pub fn roundtrip_oracle(v: &Val, bytes: &[u8], reported: Result<usize, opcua::ty
     Verdict::Ok
 }
 
+/// a decoded structure: `byte_len` = bytes written = size reported, and its encoding decodes
+/// (followed by other bytes) to exactly itself
+fn struct_stable(name: &str, re: &[u8], byte_len: usize, reported: usize) -> Verdict {
+    if byte_len != re.len() || reported != re.len() {
+        return Verdict::fail("byte_len", name, format!("byte_len {} reported {} written {}", byte_len, reported, re.len()));
+    }
+    let mut stream = re.to_vec();
+    stream.extend_from_slice(&SENTINEL);
+    // decode(encode(v)) = norm(v): same length, exactly consumed, and norm(v) is a fixpoint
+    match dispatch::decode_struct(name, &stream, &generous().options()) {
+        Some(Ok((pos, re2, _, _))) => {
+            if pos != re.len() {
+                return Verdict::fail("consumed_exactly", name, format!("consumed {} of {}", pos, re.len()));
+            }
+            if re2.len() != re.len() {
+                return Verdict::fail("value_equal", name, "decode(encode(v)) re-encodes to a different length");
+            }
+            match dispatch::decode_struct(name, &re2, &generous().options()) {
+                Some(Ok((p3, re3, _, _))) if p3 == re2.len() && re3 == re2 => Verdict::Ok,
+                _ => Verdict::fail("stable", name, "the normalised value does not round-trip exactly"),
+            }
+        }
+        Some(Err(e)) => Verdict::fail("decodes", name, format!("own encoding rejected: {}", e)),
+        None => Verdict::Ok,
+    }
+}
+
 impl Runner for R {
     fn step(&mut self, toks: &[&str]) -> (String, Verdict) {
         match toks {
@@ -175,6 +228,39 @@ impl Runner for R {
                     Err(_) => "err".to_string(),
                 };
                 (line, roundtrip_oracle(&v, &bytes, r))
+            }
+            ["srt", name, h] => {
+                let bytes = match unhex(h) {
+                    Some(b) => b,
+                    None => return ("bad-op".to_string(), Verdict::Ok),
+                };
+                let (line, out) = run_sdec(name, &generous(), &bytes);
+                let verdict = match out {
+                    None => Verdict::Ok,
+                    Some(Err(e)) => Verdict::fail("decodes", name, format!("encoding of a valid {} rejected: {}", name, e)),
+                    Some(Ok((pos, re, len, rep))) => {
+                        if pos != bytes.len() {
+                            Verdict::fail("consumed_exactly", name, format!("consumed {} of {}", pos, bytes.len()))
+                        } else if re.len() != bytes.len() {
+                            Verdict::fail("value_equal", name, format!("re-encoding has {} bytes, the original {}", re.len(), bytes.len()))
+                        } else {
+                            struct_stable(name, &re, len, rep)
+                        }
+                    }
+                };
+                (line, verdict)
+            }
+            ["sdec", name, opts, h] => {
+                let (lim, bytes) = match (Lim::parse(opts), unhex(h)) {
+                    (Some(l), Some(b)) => (l, b),
+                    _ => return ("bad-op".to_string(), Verdict::Ok),
+                };
+                let (line, out) = run_sdec(name, &lim, &bytes);
+                let verdict = match out {
+                    Some(Ok((_, re, len, rep))) => struct_stable(name, &re, len, rep),
+                    _ => Verdict::Ok,
+                };
+                (line, verdict)
             }
             ["dec", ty, opts, h] => {
                 let (lim, bytes) = match (Lim::parse(opts), unhex(h)) {
